@@ -251,3 +251,40 @@ Proof.
     destruct (Dom j i Hj Hi), (Dom j' i' Hj' Hi').
     destruct (tricell_edges_inj nu j i j' i' e); auto; lia.
 Qed.
+
+(* ------------------------------------------------------------------ connected: every vertex but the first has a smaller neighbour *)
+Lemma tri_connected nu nv u : 2 <= nu -> 2 <= nv ->
+  connected (unit_triangle_nverts nu nv u) (unit_triangle_faces nu nv u).
+Proof.
+  intros Hu Hv. rewrite tri_nverts by lia. apply connected_by_descent. intros v Hv'. unfold adjacent.
+  assert (Hrow : exists r c, 0 <= r < nv /\ 0 <= c < rlen nu r /\ v = roff nu r + c).
+  { assert (G : forall n, 0 <= n -> forall w, 0 <= w < roff nu n -> exists r c, 0 <= r < n /\ 0 <= c < rlen nu r /\ w = roff nu r + c).
+    { intros n Hn. pattern n. apply natlike_ind; [ | | exact Hn].
+      - intros w Hw. rewrite roff_0 in Hw by lia. lia.
+      - intros x Hx IH w Hw. unfold Z.succ in *. rewrite roff_succ in Hw by lia.
+        destruct (Z_lt_le_dec w (roff nu x)) as [L|L].
+        + destruct (IH w ltac:(lia)) as [r [c [Hr [Hc E]]]]. exists r, c. split; [lia|]. auto.
+        + exists x, (w - roff nu x). split; [lia|]. split; [lia|]. lia. }
+    apply (G nv); lia. }
+  destruct Hrow as [r [c [Hr [Hc Ev]]]]. unfold rlen in Hc.
+  assert (IN : forall j i e, 0 <= j < nv - 1 -> 0 <= i < Z.min (j + 1) nu -> In e (dedges (tricell nu j i)) ->
+                In e (dedges (unit_triangle_faces nu nv u))).
+  { intros j i e Hj Hi He. apply tri_dedge_In; try lia. exists j, i. unfold rlen. auto. }
+  destruct (Z.eq_dec c 0) as [->|C0].
+  - (* first vertex of row r > 0: joined to the first vertex of the row above by the lower triangle of cell (r-1, 0) *)
+    assert (0 < r) by (destruct (Z.eq_dec r 0) as [->|]; [rewrite roff_0 in Ev by lia; lia | lia]).
+    exists (roff nu (r - 1) + 0). pose proof (roff_succ nu (r - 1) ltac:(lia) ltac:(lia)) as RS.
+    replace (r - 1 + 1) with r in RS by lia. unfold rlen in RS. split; [pose proof (roff_nonneg nu (r - 1) ltac:(lia) ltac:(lia)); lia|].
+    left. apply (IN (r - 1) 0); [lia|lia|]. unfold tricell. cbv zeta. rewrite dedges_app. apply in_app_iff. right.
+    replace (0 <? nu - 1) with true by lia. replace (r - 1 + 1) with r by lia. lsimpl. left. f_equal; lia.
+  - (* c > 0: joined to its left neighbour *)
+    exists (v - 1). pose proof (roff_nonneg nu r ltac:(lia) ltac:(lia)). split; [lia|].
+    destruct (Z_lt_le_dec r (nv - 1)) as [Lr|Lr].
+    + (* upper triangle of cell (r, c-1): edge (kpt + 1, kpt) *)
+      right. apply (IN r (c - 1)); [lia|lia|]. unfold tricell. cbv zeta. rewrite dedges_app. apply in_app_iff. left.
+      replace ((c - 1 <? r) && (c - 1 <? nu - 1)) with true by lia. lsimpl. right. right. left. f_equal; lia.
+    + (* last row: lower triangle of cell (r-1, c-1): edge (knx, knx + 1) *)
+      assert (r = nv - 1) by lia. subst r.
+      left. apply (IN (nv - 2) (c - 1)); [lia|lia|]. unfold tricell. cbv zeta. rewrite dedges_app. apply in_app_iff. right.
+      replace (c - 1 <? nu - 1) with true by lia. replace (nv - 2 + 1) with (nv - 1) by lia. lsimpl. right. left. f_equal; lia.
+Qed.
